@@ -4,6 +4,26 @@ import json
 import os
 
 BUILT = {
+    "C01": dict(
+        text="Machine-checked theorems (Coq 8.16, no axioms): (1) the merged-grid counter — cumulative+diff and per-bin+tail dispatch both give the (r_{k-1}, r_k] sums and the nearest-edge slice sum over grid indices a..b equals the pair sum over (r_a, r_b] (limits_sum_exact, nearest_exact, tree_count_exact); (2) pruning is sound in every space with a symmetric distance obeying the triangle inequality (prune_sound_le/_lt; the strict test is refuted at equality); (3) the pruning angle: the maximum over bin centres is always sufficient, the angle at max(zmin, limit) is refuted below the limit; (4) every linked patch pair is visited exactly once, unordered pairs once for an autocorrelation; (5) composition: every cell written by count_pairs equals the specification (count_cell_exact). Tie on every run: L1 the real AngularTree.count against the model and the brute-force pair sum; L3 the real autocorrelate/crosscorrelate (all count kinds, 2-5 patches, 1-3 bins, every unit, poles / RA wrap, low-z, high-z, dense-compact vs sparse-wide, separation weighting) on catalogs created by Catalog.from_dataframe against the model (linkage + iteration + cell writes) AND against the brute-force specification, plus stored weight sums and patch links — all evaluated inside Coq on exact integer squared chords of the implementation's own unit vectors.",
+        note="Trusted: Coq kernel+vm_compute; python harness (integer scaling of unit vectors, near-tie filter at 2^-40, failure classification); scipy KDTree exercised (L1) not modelled; angles per scale/bin, merged grid and chord radii taken from the implementation as tables (their correctness is C15/C14); the triangle inequality on the sphere is C14_sphere_triangle. Float rounding at interval ends excluded (counted as near_tie_skipped).",
+        technique="Coq proof (telescoping over the edge list, metric-space pruning argument, NoDup of the pair iteration) + layered differential correspondence and brute-force specification evaluated in Coq",
+        ref="DESIGN.md §5 C01"),
+    "C07": dict(
+        text="Machine-checked theorems (Coq 8.16, no axioms) over an executable model of the per-patch tree cache (`binning` file codec, `trees.pkl` tag, BinnedTrees.build / binning_equal, the builds done by auto/crosscorrelate, reopen): the invariant 'binning file = Some b -> trees file = built_for b' is preserved by every operation, hence for EVERY finite history (any edges, bin counts, closed side, unbinned, forced or unforced, raising requests, reopenings) the unforced build of a measurement leaves exactly the trees of a fresh cache (history_independent, measurement_history_independent); binning_equal (edges AND closed) is sound; decisions that forget `closed` or compare only the number of edges are refuted by witness. Tie on every run: corpus plus random histories (<= 8 ops) on catalogs with redshifts on bin edges; after every op each patch's decoded `binning` file and unpickled trees.pkl are compared with the model inside Coq; the final CorrFunc list is compared with == and bitwise against freshly created caches.",
+        note="Trusted: Coq kernel + vm_compute; python harness (generators, float->Q, observation via BinnedTrees(patch).binning and pickle.load); scipy KDTree counting exercised, not modelled. That pair counts are a function of data, config and trees.pkl content is checked end-to-end per history, not proved.",
+        technique="Coq proof (state invariant + induction over operation histories; refutation witnesses for broken decisions) + differential correspondence of cache state evaluated in Coq + history-vs-fresh comparison",
+        ref="DESIGN.md §5 C07"),
+    "C10": dict(
+        text="Machine-checked theorems (Coq 8.16, no axioms) over executable models of np.digitize (both `right` values), build_trees (keep 0<i<=nbins, dummy trees), the digitize-based histogram and the measurement's per-bin sum_weights: for ALL strictly increasing edge arrays, all redshifts incl. values on any inner/outer edge and outside, both closed sides, weighted/unweighted, digitize returns b+1 iff member b (0 / nbins+1 outside); trees, histogram and sum_weights equal the one `member` spec per bin and per patch, bins/patches without objects give zeros; the pinned np.histogram-based algorithm is proved correct for closed=left and refuted for closed=right, the pinned build_trees is proved to raise exactly when no object of the patch is inside the binning (both repaired in /repo by fix: commits). Tie: every run creates real catalogs, builds trees, and compares BinnedTrees per-bin num_records/sum_weights, HistData.from_catalog(...).data and CorrFunc.dd.sum_weights with the spec, the model and each other inside Coq, on redshifts from edges, midpoints, below, above; thorough tier exhaustive for <=3 objects on the 2*nbins+3 critical values, nbins <= 2.",
+        note="Trusted: Coq kernel + vm_compute; python harness (generator, float->Q, classification by signature); numpy digitize/bincount/sum and scipy KDTree exercised, modelled by their documented semantics, not verified. Dyadic redshifts/weights so all float sums are exact.",
+        technique="Coq proof (induction over the edge list; filter/extensionality over object lists; Q sums with ring) + differential correspondence of three consumers evaluated in Coq",
+        ref="DESIGN.md §5 C10"),
+    "C16": dict(
+        text="Theorems: closed (no axioms) — random_sizes_sum / only the last chunk truncated / pass_total; reseed_history_free (for EVERY earlier history of probes, partial passes, draws, reseeds and every PRNG stream the observed pass equals that of a fresh generator); joint_draw (weights and redshifts come from the same source row); refutations of a reader that does not reseed and of independent attribute draws. Under the four standard real-number axioms: window_ra / window_dec (points inside the window), equal_area (cos(asin y) * asin'(y) = 1), equal_area_fraction, flat_dec_refuted. Tie: the real BoxRandoms through a logging subclass and the real Catalog.from_random after arbitrary earlier use; event trace and call sizes vs the model, record count, exact rational window test, joint rows, bit-for-bit equality with a fresh-generator catalog, different seeds differ — evaluated in Coq.",
+        note="Trusted: Coq kernel+vm_compute; axioms (real-number part only): ClassicalDedekindReals.sig_forall_dec, sig_not_dec, FunctionalExtensionality.functional_extensionality_dep, Classical_Prop.classic; numpy PRNG trusted as an abstract stream; area uniformity of the implementation is a chi-square statistic (alarm only at p < 1e-12 on 20000-point samples), not a theorem; HealPixRandoms unmodelled (healpy absent).",
+        technique="Coq proof (state machine over an abstract PRNG stream; real analysis for the equal-area map) + trace/record correspondence evaluated in Coq",
+        ref="DESIGN.md §5 C16"),
     "C02": dict(
         text="Machine-checked theorems (Coq 8.16, no axioms) over an executable model of the chunk cursor, Parquet row-group cache, array_split, groupby, PatchWriter/CatalogWriter and the reader->workers->writer pipeline: for every length, chunk size, worker count, buffer size and EVERY delivery order each patch stores exactly the records assigned to it (pipeline_any_schedule). The model is tied to /repo on every run by running the real Catalog.from_dataframe/from_file (FITS, HDF5, Parquet; sequential, controlled pool with harness-chosen delivery order, real multiprocessing) and comparing per-patch row sets with the model inside Coq (vm_compute).",
         note="Trusted: Coq kernel+vm_compute; python harness (generators, bit-pattern mapping of records, float->Q); simulated Pool/Process/Queue; numpy/scipy/astropy/h5py/pyarrow exercised not modelled. Nearest-centre re-checked with exact rationals from the implementation's unit vectors; deg->rad checked to 2^-51 relative against a 30-digit rational pi.",
